@@ -334,6 +334,8 @@ def prepare(ctx, gens, targets):
         if st.get(g):
             ctx.broke(f"translation {g} (tie T) failed", st[g])
     ctx.notes["gen_status"] = {k: ("ok" if v is None else "FAILED") for k, v in st.items()}
+    if translate.TABULATED:   # finite-domain functions outside the syntactic subset: tabulated from the loaded code (DESIGN.md section 14)
+        ctx.notes["tabulated_definitions"] = [{"definition": d, "reason": w[:200]} for d, w in translate.TABULATED]
     targets = list(targets) + ["Corr/Sound.vo"]   # the comparison functions of the correspondence are proved sound on every run
     ok, log = coq_make(targets, clean=(ctx.tier == "thorough" and os.environ.get("VERIF_NO_CLEAN") != "1"))
     if not ok:
